@@ -99,6 +99,8 @@ def judge(ctx, prop, r, extra_checks):
     whose fetcher-side validate_remote oracle complains) -> violation / known finding / drift."""
     c, o = r["case"], r["outcome"]
     desc = compact(c)
+    if not hasattr(ctx, "drift"):
+        ctx.drift = []
     if r.get("ok"):
         return "drift"
     before, after = o["before"], o["after"]
@@ -124,14 +126,11 @@ def judge(ctx, prop, r, extra_checks):
                       "the real fetch violates the property statement: " + "; ".join(problems) + " | " + "; ".join(what),
                       {"case": c, "outcome": o})
         return "violation"
-    # The real outcome differs from the model's prediction. The model predicts exact states; a
-    # divergence that keeps storage unchanged and reports an error/failure cannot violate C01/C02.
-    if before == after and o["result"] in ("Error", "Failed"):
-        return "drift"
-    ctx.violation(f"{prop} divergence: {desc} -> {'; '.join(what)}",
-                  "the real fetch does not follow Fetch.tla on this scenario: " + "; ".join(what),
-                  {"case": c, "outcome": o})
-    return "violation"
+    # The real outcome differs from the model's prediction, but the statement -- evaluated on the
+    # real before/after state, and the fetcher's own validate_remote -- holds: the model is more
+    # exact than the property. Logged as drift (BUILDING.md: the statement is the bar).
+    ctx.drift.append({"scenario": desc, "what": "; ".join(what)})
+    return "drift"
 
 
 def known_noroot(ctx, prop, cases, verdict_cases):
@@ -151,14 +150,48 @@ def known_noroot(ctx, prop, cases, verdict_cases):
     return n
 
 
-def record_and_validate(ctx, n, nns, threads, cfg="TraceFetch.cfg"):
+def record_and_validate(ctx, prop, n, nns, threads, extra_checks, cfg="TraceFetch.cfg"):
+    """Record n seeded random runs of the real fetch and let TLC validate them against Fetch.tla.
+    A record TLC cannot explain is judged like a replay divergence: violation if the fetcher's own
+    validate_remote or the statement (evaluated on the real before/after state) fails, drift
+    otherwise; it is then dropped and the rest of the trace validated again.
+    Returns (recorded runs, number accepted by TLC, number judged as drift)."""
     rec = os.path.join(ctx.work, "rec.ndjson")
     ctx.engine(ENGINE, ["--mode", "record", "--n", n, "--ns", nns, "--out", rec, "--threads", threads], timeout=3000)
     recorded = ctx.read_ndjson(rec)
     if len(recorded) != n:
         raise vlib.ToolError(f"record mode produced {len(recorded)} of {n} runs")
-    ok, info, tres = ctx.validate("TraceFetch", cfg, rec, timeout=3000)
-    return ok, info, tres, recorded, rec
+    if not hasattr(ctx, "drift"):
+        ctx.drift = []
+    todo = list(recorded)
+    drift = 0
+    for attempt in range(12):
+        path = ctx.write_cases(todo, f"rec-{attempt}.ndjson")
+        ok, info, tres = ctx.validate("TraceFetch", cfg, path, timeout=3000)
+        if ok:
+            return recorded, len(todo), drift
+        at = reject_at(info)
+        if not at or not (0 < at <= len(todo)):
+            raise vlib.ToolError(f"trace validation rejected without a usable record index: {info}")
+        bad = todo.pop(at - 1)
+        sc = {k: v for k, v in bad.items() if k != "out"}
+        o = bad["out"]
+        desc = compact(sc)
+        problems = extra_checks(sc, o)
+        if o.get("oracle"):
+            ctx.violation(f"{prop} oracle: {desc} -> {o['result']} {'; '.join(o['oracle'])[:200]}",
+                          "recorded run rejected by TLC; the fetcher's own Repository::remote/validate_remote rejects a namespace the fetch changed",
+                          {"record": bad, "tlc": info})
+        elif problems:
+            ctx.violation(f"{prop} statement: {desc} -> {'; '.join(problems)}",
+                          "recorded run rejected by TLC and the real before/after state violates the statement: " + "; ".join(problems),
+                          {"record": bad, "tlc": info})
+        elif o["result"] == "Panic":
+            ctx.violation(f"{prop} panic: {desc} -> {o['detail'][:160]}", "the real fetch panicked", {"record": bad})
+        else:
+            drift += 1
+            ctx.drift.append({"scenario": desc, "what": f"recorded run ({o['result']}) is not a behaviour of Fetch.tla, statement holds"})
+    raise vlib.ToolError("more than 12 recorded runs rejected by TLC")
 
 
 def reject_at(info):
